@@ -23,8 +23,8 @@ What is **not** modelled (covered by the correspondence run only): the text itse
 The output of a render is therefore a small structured value (which attributes are shown and through which
 fallback, the `(name, index, display)` triples), not a string.
 
-`Fix` switches the three places where the pinned code raises to the behaviour of the proposed patches
-(`fixes/F11a…`, `F11b…`, `F11c…`); `Fix.asIs` is the pinned tree.
+`Fix` switches the four places where the pinned code raises to the behaviour of the proposed patches
+(`fixes/F11a…`, `F11b…`, `F11c…`, `F11d…`); `Fix.asIs` is the pinned tree.
 -/
 namespace Aoe.Render
 
@@ -107,7 +107,7 @@ structure Env where
 structure Fix where
   trig : Bool          -- F11a: dangling trigger reference falls back to `<<INVALID TRIGGER>>`
   condName : Bool      -- F11b: unknown condition type falls back to `Unknown`
-  presDefault : Bool   -- F11c: attribute without default presentation falls back to `Unknown`
+  presDefault : Bool   -- F11c: the row `-1` of the presentation table (defaults) is not taken for a type
   aaSkip : Bool        -- F11d: the merged `quantity` of an armour/attack effect is skipped before it is read
   deriving DecidableEq, Repr
 
@@ -206,6 +206,7 @@ def classify (T : Table) (rid : Nat) : Rep :=
 
 /-- `get_presentation_value`: `none` = the Python `None` (type not in the presentation table) -/
 def getPresentation (fx : Fix) (T : Table) (ty : Int) (a : Nat) : Except Err (Option Nat) :=
+  if fx.presDefault && ty == -1 then .ok Option.none else
   match assoc T.pres ty with
   | Option.none => .ok Option.none
   | some m =>
@@ -217,7 +218,7 @@ def getPresentation (fx : Fix) (T : Table) (ty : Int) (a : Nat) : Except Err (Op
       | some d =>
         match assoc d a with
         | some r => .ok (some r)
-        | Option.none => if fx.presDefault then .ok Option.none else .error .keyError   -- `source[-1][key]`
+        | Option.none => .error .keyError                 -- `source[-1][key]`
 
 /-- `transform_attr_value` -/
 def transformAttr (fx : Fix) (T : Table) (env : Env) (ty : Int) (a : Nat) (v : Val) : Except Err Piece :=
@@ -443,9 +444,11 @@ def hasDefaults (T : Table) : Bool := (assoc T.pres (-1)).isSome
 def repsHandled (T : Table) : Bool :=
   allB T.pres fun e => allB e.2 fun ar => classify T ar.2 != .unhandled
 
-/-- the name table and the attribute table have the same keys (a listed type always has a name) -/
+/-- the name table and the attribute table have the same keys (a listed type always has a name), and the
+presentation table has exactly these keys plus the row `-1` -/
 def namesMatch (T : Table) : Bool :=
-  allB T.attrs (fun e => T.names.contains e.1) && allB T.names (fun k => (assoc T.attrs k).isSome)
+  allB T.attrs (fun e => T.names.contains e.1) && allB T.names (fun k => (assoc T.attrs k).isSome) &&
+  allB T.pres (fun e => e.1 == -1 || (assoc T.attrs e.1).isSome)
 
 /-- every `empty_attributes` key has a default presentation (needed on the pinned tree for type −1) -/
 def emptyCovered (T : Table) : Bool :=
